@@ -3,7 +3,12 @@ HOOK_COMMITS = ["146c602", "100f0bc"]
 NOTES = ("Technique: machine-checked proof in Coq 8.16.1 about a hand-written executable model, tied to /repo by a "
          "correspondence check (extracted OCaml model vs. the Go implementation on the same inputs) that runs on "
          "every check.  See DESIGN.md.")
-NOT_YET = {}
+NOT_YET = {
+    "C33": "not claimed: the keep-alive loop is modelled as a wrapper around the client model (coq/Client/ClKeepalive.v) with a "
+           "monitor (coq/Checkers/ChkCl4.v), but the blocking of notifyStateChange on the capacity-1 channel and the choice of "
+           "Go's select between a pending tick and a pending state change are outside this sequential executable model and the "
+           "theorems are not finished, so no proof-level claim is made",
+}
 COMMON_NOTE = ("Trusted: Coq kernel, ExtrOcamlBasic extraction, hand-written OCaml/Go glue; the model is hand-written and "
                "tied to /repo by differential execution (testing) on generated inputs, not by proof.")
 GW_NOTE = (COMMON_NOTE + " The gateway model is event-atomic (one packet/timer handled to completion); the Go scheduler, "
@@ -216,6 +221,23 @@ TEXT.update({
     },
 })
 
+TEXT["C28"] = {
+    "level": "Theorem C28_all_histories (cmon_sound): for EVERY history of the client model - API calls at any time, any datagram "
+             "of the gateway (expected, unexpected, stale, duplicated, undecodable) at any time, silence of any length - every "
+             "blocking API call returns by call_bound (ConnectTimeout x (RetryCount+1) for Connect, one retry budget for Register / "
+             "Subscribe / Unsubscribe / Ping / Publish QoS 1 / Disconnect / Close, two for Publish QoS 2, budget + sleep duration + "
+             "PINGRESP wait for Sleep, plus the receive loop's poll interval) and after Close or the gateway's DISCONNECT the client "
+             "has exited by the same budget. Proved by an invariant tying every pending call to a live transaction timer whose "
+             "remaining retries fit the deadline. Return values, return times and the exit time of the real Client under synctest "
+             "are compared with the model, the monitor runs on the implementation's times, and goroutines outliving the client are "
+             "reported by the driver.",
+    "note": COMMON_NOTE + " The client model is event-atomic; KeepAlive = 0 in generated histories (the keep-alive loop is C33). Side "
+            "conditions: harness call identifiers are not reused while pending (cl_fresh); the model's timer fuel is not exhausted "
+            "(adv_ok). Two genuine defects found by this proof were repaired (c6f47ca, 141cd10 earlier; e8edbf4: a repeated "
+            "DISCONNECT restarted the sleep timer without bound)." + STEP_NOTE.replace("gateway", "client"),
+    "technique": "Coq invariant proof over all client histories (all gateway behaviours) + differential execution of the real Client under virtual time with goroutine-leak detection",
+}
+
 TEXT["C15"] = {
     "level": "Theorem C15_non_interference: in the multi-session gateway model (one session per peer address, shared read-only "
              "configuration, common clock) the outputs for one peer under ANY interleaving of the events of any number of peers equal "
@@ -283,6 +305,19 @@ TEXT.update({
         "technique": "Coq refutation witnesses + step lemmas + keep-alive window monitor on the implementation traces",
     },
 })
+
+TEXT["C26"] = {
+    "level": "Theorems about the composed system (client model + lossless link + gateway model + specification broker, run to "
+             "quiescence after every event): C26_connect_then_simple_calls / C26_and_final_disconnect - for ALL configurations "
+             "(no authentication / will), call identifiers, short topic names and payloads every program Connect; c1..cn [; "
+             "Disconnect] of Ping and Publish QoS 0/1 calls succeeds call by call with exactly one nil return and exactly the "
+             "documented packet at the broker; C26_refuted - two broker messages in flight on one not-yet-registered topic: only "
+             "one reaches the handler (recorded finding, witness on the real code in every run). The other API calls, sleep "
+             "cycles and handler delivery are NOT proved: the monitor clauses (26,1)-(26,4) check them on the real client + real "
+             "gateway against the composed model on generated programs incl. bursts in flight.",
+    "note": COMMON_NOTE + " Partial: the theorems cover Connect / Ping / Publish QoS 0-1 on short topics / Disconnect programs only; everything else of the property is tested against the composed model, not proved. The broker is a specification broker (MQTT 3.1.1 routing), not mosquitto.",
+    "technique": "Coq theorems about the composed client+gateway+broker model for a class of API programs, a refutation witness, and end-to-end differential execution of the real client and gateway with a monitor",
+}
 
 TEXT["C16"] = {
     "level": "Theorems C16_*: (safety, proved) while the budget lasts the gateway's retry timer writes exactly the stored REGISTER / "
